@@ -67,10 +67,55 @@ def mk(fname, H, W, box=None, fixed=None, with_held=True, symbolic_cells=None):
     return h
 
 
+def mk_box_content(fname, H, W):
+    """what is INSIDE a box is part of what is there: a second world that differs from an earlier one only in the content of a box (or the
+    same world after the box was replaced in place) is observed with ITS content, whatever was observed before"""
+    from gym_gridverse.agent import Agent
+    from gym_gridverse.geometry import Area, Position
+    from gym_gridverse.grid import Grid
+    from gym_gridverse.grid_object import Box, Color, Floor, Key, Wall
+    from gym_gridverse.state import State
+    from ..stubs import ORS, same_object
+    import numpy as np
+    contents = [('Key(RED)', lambda: Key(Color.RED)), ('Key(BLUE)', lambda: Key(Color.BLUE)), ('Floor', Floor), ('Box(Key(RED))', lambda: Box(Key(Color.RED)))]
+
+    def h(sx):
+        by, bx = int(sx.int('by', 0, H - 1)), int(sx.int('bx', 0, W - 1))
+        ay, ax, o = int(sx.int('ay', 0, H - 1)), int(sx.int('ax', 0, W - 1)), sx.choice('o', ORS)
+        c1, c2 = sx.choice('first', contents), sx.choice('second', contents)
+        sx.assume(c1[0] != c2[0])
+        area = Area((-1, 0), (-1, 1))
+        rng = np.random.default_rng(0)
+
+        def world(content):
+            rows = [[Floor() for _ in range(W)] for _ in range(H)]
+            rows[by][bx] = Box(content())
+            return State(Grid(rows), Agent(Position(ay, ax), o))
+
+        st1 = world(c1[1])
+        FUNCS[fname](st1, area=area, rng=rng)
+        how = sx.choice('how', ['another-state', 'box-replaced-in-place'])
+        if how == 'another-state':
+            st2 = world(c2[1])
+        else:
+            st1.grid[Position(by, bx)] = Box(c2[1]())
+            st2 = st1
+        ob = FUNCS[fname](st2, area=area, rng=rng)
+        sx.cover(how)
+        shown = [c for row in ob.grid.objects for c in row if isinstance(c, Box)]
+        sx.cover('box-in-view', nontrivial=bool(shown))
+        for c in shown:
+            sx.check(same_object(c, Box(c2[1]())), 'observed-box-holds-what-the-world-box-holds', f'world box holds {c2[0]}, observed {c!r} (earlier world: {c1[0]})')
+    return h
+
+
 def obligations(tier):
     q = tier == 'quick'
     box = (-2, 1, -2, 2)
     obs = []
+    for fname in FUNCS:
+        if fname != 'stochastic_raytracing':
+            obs.append(Obligation(f'{fname}-box-content-after-an-earlier-observation-2x2', mk_box_content(fname, 2, 2), dict(function=fname, H=2, W=2, view=[2, 3])))
     for fname in FUNCS:
         # every view area of the box, on small worlds
         for (H, W) in ([(1, 1), (1, 2), (2, 2)] if q else [(1, 1), (1, 2), (2, 1), (2, 2), (2, 3)]):
